@@ -459,7 +459,7 @@ fn main() {
     eng.rule(
         "csi_table: 63 finals x 8 intermediates x parameter lists over {0,1,size,2^16,10^6,2^31-1} (all lists of length <=2; lengths 3..6 with exactly one large position, others 1 or size) x 3 screen \
          prefixes (empty, full+scrollback+margins, printable just written); other_streams: macro recursion/repeat/fan-out, sixel raster/repeat/colour registers, OSC, music, custom-font DCS payloads, Avatar/Ctrl-A \
-         repeats; files: golden xb/adf/idf/tnd/bin/psf/tdf files with 1-4 header or tail bytes set to extremes; icy_record_fields: every byte offset 0..96 of every zTXt record of a golden IcyDraw file overwritten with 1-4 byte extremes; psf2_headers: all combinations of extreme PSF2 header fields; random_numbers: generated CSI/DCS sequences with random magnitudes. Each input runs in a \
+         repeats; files: golden xb/adf/idf/tnd/bin/psf/tdf files with 1-4 header or tail bytes set to extremes; icy_record_fields: every byte offset 0..96 of every zTXt record of a golden IcyDraw file overwritten with 1-4 byte extremes; psf2_headers: all combinations of extreme PSF2 header fields; csi_pairs: state-setting sequences carrying 2^16 / 10^6 / 2^31-1 (margins, scroll regions, single-edge margin updates, origin mode, far tab stop, far cursor), alone and on a screen that already has a left/right or four-parameter region, each followed by every control function (63 finals x 8 intermediates x {no parameter, 1, 25}) and by line feeds / a long printable run / index and reverse index; random_numbers: generated CSI/DCS sequences with random magnitudes. Each input runs in a \
          worker: CPU (all threads) <= max(0.5 s, 50 x CPU of the same template at screen size), peak heap <= 256 MiB, no abort, no answer within 6 s = hang. Non-trivial: the case ran to completion \
          under measurement (not ended by a panic); distinct by case hash.",
     );
@@ -536,6 +536,14 @@ fn main() {
             v.push(("origin_mode+margins", format!("\x1b[1;{n}r\x1b[?6h")));
             v.push(("tab_far_right", format!("\x1b[{n}G\x1bH\x1b[1G")));
             v.push(("cursor_far", format!("\x1b[{n};{n}H")));
+        }
+        // the same setters on a screen that already has a left/right region (and a top/bottom one): single-edge updates of an existing region
+        let plain = v.clone();
+        for (name, s) in &plain {
+            if name.starts_with("specific_margin") || name.starts_with("margins") || name.starts_with("scroll_region") || name.starts_with("origin") {
+                v.push(("after_lr_region", format!("\x1b[?69h\x1b[10;70s{s}")));
+                v.push(("after_4_param_region", format!("\x1b[5;20;10;70r{s}")));
+            }
         }
         v
     };
